@@ -16,7 +16,18 @@ from core import Case
 
 PID = "C03"
 LEAN_MODULES = ["KrroodVerif.Props.C03"]
-THEOREMS: list = []
+THEOREMS = [
+    "KrroodVerif.Dom.C03_sequential_partial",
+    "KrroodVerif.Dom.C03_nonoverlap_partial",
+    "KrroodVerif.Dom.C03_full",
+    "KrroodVerif.Dom.C03_repair_conservative",
+    "KrroodVerif.Dom.C03_alone",
+    "KrroodVerif.Dom.C03_alone_idx",
+    "KrroodVerif.Dom.C03_abandon_irrelevant",
+    "KrroodVerif.Dom.C03_cex_interleaved",
+    "KrroodVerif.Dom.C03_cex_runtime_error",
+    "KrroodVerif.Dom.C03_sequential_decidable_nonvacuous",
+]
 MODEL_FUNCTION = "Dom.run / Dom.step / Dom.qnext (Model/Dom.lean); Eql.evalQuery for isolated results"
 TRUSTED = [
     "Lean 4.33 kernel; axioms of each theorem listed under coverage.theorems",
